@@ -37,8 +37,15 @@ structure Facts where
   queueFullErrors : Bool
   /-- queue-full is only reported as an error when no WAL is configured (repair variant) -/
   queueFullErrorsOnlyNoWal : Bool
+  /-- the same two facts for the pre-typed write path (`writeTypedColumnarRaw`) -/
+  typedQueueFullErrors : Bool
+  typedQueueFullErrorsOnlyNoWal : Bool
   workerFailSetsFlag : Bool
   syncFailSetsFlag : Bool
+  /-- the worker / sync failure site also raises the flag when the flush context is done (deadline of
+  `flush_timeout_seconds` exceeded on stalled storage), i.e. the call is not guarded by `ctx.Err()` -/
+  workerTimeoutSetsFlag : Bool
+  syncTimeoutSetsFlag : Bool
   /-- effective order of the shutdown actions (hooks by priority, then components by priority) -/
   shutdown : List ShutAct
 deriving DecidableEq, Repr
@@ -47,14 +54,18 @@ deriving DecidableEq, Repr
 def Facts.round1 : Facts :=
   { tickFlag := [.purge, .replay, .reset], tickElse := [.purge],
     queueFullSetsFlag := false, queueFullErrors := false, queueFullErrorsOnlyNoWal := false,
+    typedQueueFullErrors := false, typedQueueFullErrorsOnlyNoWal := false,
     workerFailSetsFlag := true, syncFailSetsFlag := true,
+    workerTimeoutSetsFlag := true, syncTimeoutSetsFlag := true,
     shutdown := [.purgeAll, .bufClose, .walClose] }
 
 /-- the current tree: a queue-full drop raises the flag and, without a WAL, is reported to the client -/
 def Facts.current : Facts :=
   { tickFlag := [.purge, .replay, .reset], tickElse := [.purge],
     queueFullSetsFlag := true, queueFullErrors := true, queueFullErrorsOnlyNoWal := true,
+    typedQueueFullErrors := true, typedQueueFullErrorsOnlyNoWal := true,
     workerFailSetsFlag := true, syncFailSetsFlag := true,
+    workerTimeoutSetsFlag := true, syncTimeoutSetsFlag := true,
     shutdown := [.purgeAll, .bufClose, .walClose] }
 
 structure Row where
@@ -66,6 +77,8 @@ deriving DecidableEq, Repr
 structure Entry where
   key : Nat
   rows : List Row
+  /-- row-format entry (`Append` of `typedBatchToWALRecords`): replayed one row at a time -/
+  perRow : Bool := false
 deriving DecidableEq, Repr
 
 structure WFile where
@@ -116,6 +129,7 @@ structure St where
   inflight : Option Task := none
   hold : Bool := false
   failAfter : Option Nat := none   -- none = storage ok; some k = k more file writes succeed, then all fail
+  stalled : Bool := false          -- failing writes do not error: they block until the flush context's deadline
   flag : Bool := false
   lastFull : Bool := false         -- the last write's enqueue attempt hit the queue-full arm
   lastSkip : Bool := false         -- ... hit the closing short-circuit (flushSkipClosing: dropped, write returns nil)
@@ -146,11 +160,17 @@ def flushRows (s : St) (rows : List Row) : St × Bool :=
 def markFail (sets : Bool) (r : St × Bool) : St :=
   if r.2 then r.1 else if sets then { r.1 with flag := true } else r.1
 
+def workerSets (c : Cfg) (s : St) : Bool :=
+  if s.stalled then c.facts.workerTimeoutSetsFlag else c.facts.workerFailSetsFlag
+
+def syncSets (c : Cfg) (s : St) : Bool :=
+  if s.stalled then c.facts.syncTimeoutSetsFlag else c.facts.syncFailSetsFlag
+
 def workerFlush (c : Cfg) (s : St) (t : Task) : St :=
-  markFail c.facts.workerFailSetsFlag (flushRows s t.rows)
+  markFail (workerSets c s) (flushRows s t.rows)
 
 def syncFlush (c : Cfg) (s : St) (rows : List Row) : St :=
-  markFail c.facts.syncFailSetsFlag (flushRows s rows)
+  markFail (syncSets c s) (flushRows s rows)
 
 /-- the (single) flush worker runs until the queue is empty -/
 def finishInflight (c : Cfg) (s : St) : St :=
@@ -239,8 +259,15 @@ def insertByMtime (f : WFile) : List WFile → List WFile
 
 def sortByMtime (fs : List WFile) : List WFile := fs.foldl (fun acc f => insertByMtime f acc) []
 
+def replayRows (c : Cfg) (key : Nat) (s : St) (rows : List Row) : St :=
+  rows.foldl (fun s r => bufAppend c s key [r]) s
+
+/-- columnar entry: one `WriteColumnarDirectNoWAL`; row-format entry: one per record -/
+def replayEntry (c : Cfg) (s : St) (e : Entry) : St :=
+  if e.perRow then replayRows c e.key s e.rows else bufAppend c s e.key e.rows
+
 def replayEntries (c : Cfg) (s : St) (es : List Entry) : St :=
-  es.foldl (fun s e => bufAppend c s e.key e.rows) s
+  es.foldl (replayEntry c) s
 
 def oldEnough (minAge now : Nat) (f : WFile) : Bool := decide (minAge ≤ now - f.mtime)
 
@@ -320,7 +347,9 @@ def restart (c : Cfg) (s : St) : St :=
 
 inductive Ev
   | adv (d : Nat)
-  | write (key : Nat) (rows : List Row)   -- rows carry their ghost ids
+  | write (key : Nat) (rows : List Row)   -- rows carry their ghost ids (generic columnar path)
+  | writeT (direct : Bool) (key : Nat) (rows : List Row)  -- pre-typed path: typed msgpack decode / WriteTypedColumnarDirect
+  | stall                                 -- storage stalls: writes block until the flush deadline
   | wpause | wresume
   | hold | unhold | step1
   | mode (m : Option Nat)
@@ -335,17 +364,26 @@ deriving DecidableEq, Repr
 def reportsFull (c : Cfg) : Bool :=
   c.facts.queueFullErrors && (!c.facts.queueFullErrorsOnlyNoWal || !c.walOn)
 
-def walStage (c : Cfg) (s : St) (key : Nat) (rows : List Row) : St :=
-  if c.walOn then walAppend c { s with lastFull := false, lastSkip := false } ⟨key, rows⟩
+def reportsFullTyped (c : Cfg) : Bool :=
+  c.facts.typedQueueFullErrors && (!c.facts.typedQueueFullErrorsOnlyNoWal || !c.walOn)
+
+/-- which write path: 0 generic columnar (`writeColumnarInternal`), 1 typed msgpack decode with raw payload,
+2 `WriteTypedColumnarDirect` (row-format WAL fallback) — 1 and 2 are `writeTypedColumnarRaw` -/
+def reportsOn (c : Cfg) (path : Nat) : Bool := if path = 0 then reportsFull c else reportsFullTyped c
+
+def walStage (c : Cfg) (s : St) (path : Nat) (key : Nat) (rows : List Row) : St :=
+  if c.walOn then walAppend c { s with lastFull := false, lastSkip := false } ⟨key, rows, decide (path = 2)⟩
   else { s with lastFull := false, lastSkip := false }
 
-def ackOf (c : Cfg) (s : St) : Bool := !(s.lastFull && reportsFull c)
+def ackOf (c : Cfg) (path : Nat) (s : St) : Bool := !(s.lastFull && reportsOn c path)
 
-def finishWrite (c : Cfg) (s : St) (rows : List Row) : St :=
-  { s with lastAck := ackOf c s, acked := if ackOf c s then s.acked ++ rows.map (·.id) else s.acked }
+def finishWrite (c : Cfg) (path : Nat) (s : St) (rows : List Row) : St :=
+  { s with lastAck := ackOf c path s, acked := if ackOf c path s then s.acked ++ rows.map (·.id) else s.acked }
 
-def write (c : Cfg) (s : St) (key : Nat) (rows : List Row) : St :=
-  finishWrite c (bufAppend c (walStage c s key rows) key rows) rows
+def writeP (c : Cfg) (s : St) (path : Nat) (key : Nat) (rows : List Row) : St :=
+  finishWrite c path (bufAppend c (walStage c s path key rows) key rows) rows
+
+def write (c : Cfg) (s : St) (key : Nat) (rows : List Row) : St := writeP c s 0 key rows
 
 /-- one worker step while held: the in-flight task completes, the next one is taken -/
 def step1 (c : Cfg) (s : St) : St :=
@@ -356,6 +394,7 @@ def step1 (c : Cfg) (s : St) : St :=
 /-- the event proper, on a running process, clock already advanced -/
 def stepUp (c : Cfg) (s : St) : Ev → St
   | .write k rows => write c s k rows
+  | .writeT d k rows => writeP c s (if d then 2 else 1) k rows
   | .wpause => { s with paused := true }
   | .wresume => drainChan c { s with paused := false }
   | .hold => { s with hold := true }
@@ -374,7 +413,8 @@ every event except `adv` takes one second -/
 def step (c : Cfg) (s : St) (e : Ev) (obs : List Nat := []) : St :=
   match e with
   | .adv d => begin s obs d
-  | .mode m => { begin s obs 1 with failAfter := m }
+  | .mode m => { begin s obs 1 with failAfter := m, stalled := false }
+  | .stall => { begin s obs 1 with failAfter := some 0, stalled := true }
   | .restart => if s.up then begin s obs 0 else restart c (begin s obs 1)
   | e => if s.up then stepUp c (begin s obs 1) e else begin s obs 0
 
